@@ -89,26 +89,19 @@ K("C10", "c10_wallet_short_witness", "c10", ["saito_core::core::consensus::walle
 
 # ============================================================================== C03
 PROPERTY_ASSUMPTIONS["C03"] = [
-    "inductive steps only: each obligation starts from an arbitrary pre-state inside its size bound and performs one operation; the composition over block trees and delivery orders (Blockchain::add_block histories) is outside the claim",
-    "hashes are drawn from a 256-member family (one symbolic byte, replicated); container sizes are concrete per harness (solver cost grows ~10x per extra element), contents symbolic",
+    "inductive steps: each obligation starts from an arbitrary pre-state inside its size bound and performs one operation (RingItem / BlockRing index updates, utxoset wind/unwind of a transaction); plus the composition of steps by the reorganisation dispatcher (shared with C04)",
+    "engine K harnesses use concrete container sizes (solver cost grows ~10x per extra element) and a 256-member hash family; engine M obligations use full 32/59-byte symbolic hashes and keys, maps as finite-map models",
+    "delivery orders over whole block trees (add_block histories, orphans) are outside the claim; the recovery defects of the dispatcher are listed known findings (same classes as C04)",
 ]
 RI = "saito_core::core::consensus::ringitem::RingItem::"
 BR = "saito_core::core::consensus::blockring::BlockRing::"
 M34 = ["--unwindset", "memcmp.0:34"]
 for k_, tiers in [(1, QT), (2, QT), (3, T)]:
     K("C03", "c03_ringitem_delete_k%d" % k_, "c03", [RI + "delete_block", RI + "add_block"], "RingItem with exactly %d entries (symbolic ids and hash byte, duplicates allowed), every lc_pos in {None, Some(i<k)}, every (id,hash) to delete" % k_, covers=2, cbmc_args=M34, tiers=tiers, timeout=1500)
-K("C03", "c03_ringitem_reorg", "c03", [RI + "on_chain_reorganization"], "RingItem with 3 entries, every hash byte, lc in {true,false}", covers=2, cbmc_args=M34)
-RING = "ring of 4 slots (genesis_period 2): slot of id holds 2 entries (sibling or next lap), neighbours 1 entry each; id in {1, 4} (4 wraps the ring), concrete per harness; every hash byte, every per-slot designation"
-for id_ in (1, 4):
-  K("C03", "c03_blockring_reorg_true_id%d" % id_, "c03", [BR + "on_chain_reorganization", BR + "get_longest_chain_block_hash_at_block_id", BR + "get_latest_block_hash", BR + "get_latest_block_id"], RING, cbmc_args=M34)
-for id_ in (1, 4):
-  K("C03", "c03_blockring_reorg_false_id%d" % id_, "c03", [BR + "on_chain_reorganization", BR + "get_latest_block_id"], RING + "; tip pointer at the slot / at the next slot / unknown", covers=2, cbmc_args=M34)
-for id_ in (1, 4):
-  K("C03", "c03_blockring_delete_id%d" % id_, "c03", [BR + "delete_block", RI + "delete_block"], RING + "; delete entry 0, entry 1 or an absent hash", covers=2, cbmc_args=M34)
-TXW = ["saito_core::core::consensus::transaction::Transaction::on_chain_reorganization", "saito_core::core::consensus::slip::Slip::on_chain_reorganization", "saito_core::core::consensus::slip::Slip::get_utxoset_key"]
-for a_, b_, tiers in [(1, 1, QT), (2, 1, T), (1, 2, T)]:
-    K("C03", "c03_tx_wind_unwind_%dx%d" % (a_, b_), "c03", TXW, "%d input(s), %d output(s), symbolic amounts (0 included) / owner byte / slip type in {Normal, ATR}; utxoset = inputs + one unrelated entry with arbitrary flag" % (a_, b_), cbmc_args=["--unwindset", "memcmp.0:66"], tiers=tiers, timeout=1800)
-
+M("C03", "c03_m_ringitem_reorg", [RI + "on_chain_reorganization"], "RingItem with 0..=3 entries, 32-byte symbolic hashes, lc symbolic")
+M("C03", "c03_m_blockring_reorg", [BR + "on_chain_reorganization", RI + "on_chain_reorganization"], "ring of 4 slots holding 2/1/1/1 and 1/2/1/1 entries, every id >= 1, hash, lc, per-slot designation and tip pointer")
+M("C03", "c03_m_tx_wind_unwind", ["Transaction::on_chain_reorganization", "Slip::on_chain_reorganization"], "1..=2 inputs x 1..=2 outputs (thorough 0..=3 each), amounts (0 included) and 59-byte keys symbolic, one unrelated utxoset entry; wind and unwind")
+M("C03", "c03_reorg_sequence", ["Blockchain::validate", "Blockchain::wind_chain", "Blockchain::unwind_chain"], "same universe as c04_machine", covers=4)
 # ============================================================================== C08
 PROPERTY_ASSUMPTIONS["C08"] = [
     "engine M: MIR of /repo's current source (hooks guard off), integers as bit-vectors of their Rust width; hop keys and fee fully symbolic; number of hops concrete per query",
@@ -176,3 +169,12 @@ PROPERTY_ASSUMPTIONS["C13"] = [
 ]
 M("C13", "c13_validate_rebroadcast_gate", [BVX], "every path returning true with validate_against_utxo = true; both commitments free values")
 M("C13", "c13_atr_inputs_recorded", [CLO], "ATR-typed transactions with 1..=2 inputs, one arbitrary key already recorded for the block")
+
+# ============================================================================== C04 (and the composition half of C03)
+PROPERTY_ASSUMPTIONS["C04"] = [
+    "engine M: Blockchain::validate with wind_chain and unwind_chain inlined (async bodies, every poll Ready); one symbolic validity bit per new-chain block, constant across re-validations; golden-ticket count valid; no checkpoints; configuration present",
+    "every other callee (block upgrade, utxoset / wallet / ring / storage updates) is uninterpreted, logged, and assumed frame-preserving for block ids, hashes and the chain vectors; the wind/unwind steps are read off the BlockRing::on_chain_reorganization(id, hash, lc) events",
+    "sizes: |new| 1..=3, |old| 0..=2 with |new| > |old| (thorough: up to 4 / 3); step bound 2(|new|+|old|)+2 loop rounds",
+    "wallet slips, stored blocks and the full observable snapshot after a real failed reorganisation are outside the claim",
+]
+M("C04", "c04_machine", ["Blockchain::validate", "Blockchain::wind_chain", "Blockchain::unwind_chain"], "see assumptions; one class per (|new|, |old|, validity pattern forced by the path)", covers=4)
